@@ -296,7 +296,7 @@ func modeC02() {
 				}
 				for _, f := range kinds {
 					job++
-					if !vlib.Mine(job) {
+					if !vlib.MineKey(fmt.Sprintf("%d|%s", wi, f)) {
 						continue
 					}
 					f := f
